@@ -349,6 +349,10 @@ func c04Handwritten() []string {
 			Fun("mk", "\u09b8\u09ae\u09df", " "+Fun("up", "\u09ac\u09dc", " \u09b8\u09ae\u09df = \u09b8\u09ae\u09df + \u09ac\u09dc; "+Ret("\u09b8\u09ae\u09df")+" ")+" "+Ret("up")+" "), Var("u1", "mk(1)"), Var("u2", "mk(100)"), Print("u1(1)"), Print("u2(1)"), Print("u1(5)")),
 		// a return without a value yields nil whatever earlier calls returned
 		Lines(Fun("sq", "x", " "+Ret("x * x")+" "), Fun("note", "m", " "+If(`m == ""`, "{ "+Ret("")+" }")+" "+Ret("m")+" "), Print("sq(7)"), Print(`note("")`), Print(`note("x")`), Print(`note("")`), Fun("none", "", " "+Ret("")+" "), Print("[sq(2), none(), sq(3), none()]")),
+		// comments closed with any number of stars inside and in front of functions are blanks
+		Lines("/** guard **/", Fun("limit", "n", " /** neg **/ "+If("n < 0", "{ "+Ret("0")+" }")+" /**** double ****/ "+Ret("n * 2")+" /* end */ "), Print("limit(-5)"), Print("limit(4)"), "/***/", Fun("mkc", "", " /** state **/ "+Var("n", "0")+" /* f */ "+Fun("up", "", " n = n + 1; "+Ret("n")+" ")+" /**/ "+Ret("up")+" "), Var("n", "100"), Var("k1", "mkc()"), Var("k2", "mkc()"), Print("k1()"), Print("k1()"), Print("k2()"), Print("n"), "/* last */"),
+		// built-ins with no fixed count report a wrong count like any function, also when called through a value
+		Lines(Var("m", B["max"]), Fun("callit", "f", " "+Ret("f()")+" "), Print(`"before"`), Print("callit(m)"), Print(`"AFTER"`)), Lines(Print(`"before"`), Print(BI("min")), Print(`"AFTER"`)), Lines(Var("fs", "["+B["max"]+"]"), Print(`"before"`), "fs[0]();", Print(`"AFTER"`)),
 		// a call that executes no ফেরত yields nil, whatever its last statement was
 		Lines(Var("acc", "{total: 0}"), Var("cnt", "0"), Fun("dbl", "y", " "+Ret("y * 2")+" "), Fun("f1", "", " acc.total = acc.total + 50; "), Fun("f2", "", " cnt = cnt + 1; "), Fun("f3", "y", " dbl(y); "), Fun("f4", "", " 7; "), Fun("f5", "a", " a[0] = 4; "), Fun("f6", "", " "+If(False(), "{ "+Ret("1")+" }")+" cnt; "),
 			Print("f1()"), Print("f2() == nil"), Print("[f3(2), f4()]"), Var("arr5", "[0]"), Print("f5(arr5)"), Print("f6()"), IfElse("f1()", Print(`"came back"`), Print(`"nothing came back"`)), Print(`"" + cnt + acc.total`)),
